@@ -5,3 +5,7 @@ import AgdbCrash.Props.C05
 #print axioms AgdbCrash.Frame.C05_vec_from_storage_capacity_irrelevant
 #print axioms AgdbCrash.Frame.C05_vec_open_image
 #print axioms AgdbCrash.Frame.C05_open_image_partial
+#print axioms AgdbCrash.Frame.C05_vecW_open_image
+#print axioms AgdbCrash.Frame.C05_graph_open_image
+#print axioms AgdbCrash.Frame.C05_map_open_image
+#print axioms AgdbCrash.Frame.C05_store_open_image_partial
